@@ -170,6 +170,10 @@ class Builder:
                 ls = body.rfind('\n', 0, a) + 1
                 body = body[:ls] + text + '\n' + body[ls:]
                 self.log.add('R2b', where, 'before tail expression', 'ghost block'); continue
+            if pos == 'fn_start':
+                bo = body.index('{')
+                body = body[:bo + 1] + '\n' + text + body[bo + 1:]
+                self.log.add('R2b', where, 'fn start', 'ghost block'); continue
             if pos == 'fn_end':
                 e = body.rstrip().rfind('}')
                 ls = body.rfind('\n', 0, e) + 1
